@@ -56,12 +56,23 @@ MODULES = {"distributed": "kappadata.samplers.distributed_sampler", "class_balan
            "weighted": "kappadata.samplers.weighted_sampler"}
 
 
-def stream(kind, ds, rank, W, cfg, epoch, choices=None):
-    """list(sampler) after set_epoch; with `choices` the module's torch is a TorchProxy replaying those answers."""
+HISTORIES = ("fresh", "iterated_before", "other_epoch_before", "iterated_before_set_epoch")
+
+
+def stream(kind, ds, rank, W, cfg, epoch, choices=None, history="fresh"):
+    """list(sampler) after set_epoch; with `choices` the module's torch is a TorchProxy replaying those answers.
+    history: what happened to this sampler object before the observed iteration (the draw must not depend on it)."""
     import importlib
     mod = importlib.import_module(MODULES[kind])
     s = make(kind, ds, rank, W, cfg)
+    if history == "iterated_before_set_epoch":
+        list(s)
+    if history == "other_epoch_before":
+        s.set_epoch(epoch + 1)
+        list(s)
     s.set_epoch(epoch)
+    if history == "iterated_before":
+        list(s)
     if choices is None:
         return list(s), len(s), None
     ch = Chooser(tuple(choices))
@@ -158,10 +169,16 @@ def check_config(kind, ds, W, cfg, epochs, p, choices=None):
                         f"{kind} n={len(ds)} W={W} {cfg} epoch {epoch}: interleaved rank streams {GW}, global draw {G1}, "
                         f"expected {exp}")
             return None
-        # same (seed, epoch) reproduces
-        again = stream(kind, ds, W - 1, W, cfg, epoch, choices)[0]
-        if again != res[W - 1][0]:
-            p.violation(f"{sigbase}:not_reproducible{feats}", dict(case, epoch=epoch), f"{kind} {cfg}: rank {W - 1} differs on re-run")
+        # same (seed, epoch) reproduces - on a new object and on one object whatever it did before
+        if choices is None:
+            for hist in HISTORIES:
+                again = stream(kind, ds, W - 1, W, cfg, epoch, None, history=hist)[0]
+                p.transitions += len(again)
+                if again != res[W - 1][0]:
+                    p.violation(f"{sigbase}:draw_depends_on_sampler_history|history={hist}", dict(case, epoch=epoch, history=hist),
+                                f"{kind} n={len(ds)} W={W} {cfg} epoch {epoch}: rank {W - 1} yields {again} after history "
+                                f"'{hist}', a fresh sampler yields {res[W - 1][0]}")
+                    break
         p.state((kind, len(ds), W, tuple(G1)))
         draws.append(tuple(G1))
     return draws
